@@ -13,7 +13,7 @@ EXPLANATION = (
     "decimal-literal conversion has no error exit and yields INTEGER/LONG/DOUBLE; hex/octal yield "
     "INTEGER/LONG or Overflow; fraction literals yield SINGLE or (with #) DOUBLE; negating a "
     "literal is guarded at MIN_INTEGER / MIN_LONG, and (R5, interval dataflow) every integer literal "
-    "built by arithmetic in the parser stays inside the range of its literal type. (R6) a unary operator is pushed down the whole left spine of the chain it precedes; (R7) the parser never narrows an f64 to f32, so a SINGLE literal is rounded once, from its text.")
+    "built by arithmetic in the parser stays inside the range of its literal type. (R6) a unary operator is pushed down the whole left spine of the chain it precedes; (R7) the parser never narrows an f64 to f32, so a SINGLE literal is rounded once, from its text; (R8) the operand of a unary or keyword operator is parsed as a whole expression also when it starts with `(` (the parenthesis-only parser is used by the list of primaries only; shared with C09.R14).")
 NOT_DECIDED = [
     "that the binary rotation groups chains of four or more operators correctly (the unary rotation is decided on two-level chains, C10.R6)",
     "the numeric thresholds and the exact value a literal denotes (value-level)",
@@ -384,5 +384,7 @@ def run(ctx):
     r4_decimal_total(ctx, eng)
     r6_unary_over_chains(ctx)
     r7_no_double_rounding(ctx)
+    from . import c09
+    c09.r14_parenthesis_is_only_a_primary(ctx, "C10.R8")
     if eng.imprecise:
         ctx.notes.append("abstract interpreter imprecision: %s" % eng.imprecise[:5])
